@@ -132,7 +132,7 @@ ROWS = {
        'outcome tree (depth 5/8, budgets 1..6) on the real helpers with scripted callables; time.sleep recorded; Model/SdrXfer.lean on a scripted byte-level device, renewed-id variant probed',
   tech='Lean 4 proof (induction on the budget / outcome stream) + translator + exhaustive outcome-tree correspondence'),
  'C14': dict(
-  text='24 Lean theorems over ALL schedules of an interleaving model of one Rmcp interface shared by any number of '
+  text='29 Lean theorems over ALL schedules, EVERY retry budget (max_retries) and EVERY loss pattern of the network, of an interleaving model of one Rmcp interface shared by any number of '
        'application threads, its own keep-alive loop (call_repeatedly: the interval elapses any number of times at '
        'any moment) and one thread that ends with close_session: each caller gets its own reply; exchanges are not '
        'interleaved on the socket; session sequence numbers are strictly increasing over the whole wire log including '
@@ -140,7 +140,7 @@ ROWS = {
        'stopper\'s join; every maximal run ends with all calls made, Close Session last, the session deactivated and '
        'the keep-alive thread terminated. The model has both variants of the stopper: as shipped (event.set only) a '
        'concrete schedule is PROVED to put the keep-alive\'s Get Device ID after Close Session with a repeated '
-       'sequence number (defect found and fixed in /repo, cd1ae83); with the join the property is proved. Second variant (sequence number allocated inside the lock, fix b0e0b42): rq_seq_distinct_on_wire for every schedule, late_reply_cannot_match; racy_seq_asShipped_counterexample. Today\'s source is equated with the safe variant by a theorem (source_is_safe_variant, today_all_schedules: no variant hypothesis left). Lock '
+       'sequence number (defect found and fixed in /repo, cd1ae83); with the join the property is proved. Second variant (sequence number allocated inside the lock, fix b0e0b42): rq_seq_distinct_on_wire for every schedule, late_reply_cannot_match; racy_seq_asShipped_counterexample. Third variant (session wrapper packed per attempt vs. once before the retry loop): a thread whose reply is lost packs again and retransmits inside the same lock hold, so session sequence numbers stay strictly increasing, retransmissions and Close Session included, and each caller gets its own reply or - only after a time-out on its own datagram whose reply was lost - an error (own_reply_or_timeout_error); packOnce_retransmission_repeats_session_seq (wire N, N, N+1) / repacked_same_schedule_is_clean; rq_seq_distinct_on_wire / late_reply_cannot_match for max_retries = 0. Today\'s source is equated with the safe variant by a theorem (source_is_safe_variant, today_all_schedules: no variant hypothesis left). Lock '
        'scope, packing place, sequence-number updates, the `activated` guard, the keep-alive loop, what the stopper '
        'does and the shape of close_session are re-read from the AST of rmcp.py / session.py on every run '
        '(Gen/Threads.lean, theorem source_shape). The model\'s atomic steps are validated by trace inclusion: real '
